@@ -1023,7 +1023,8 @@ int main(int argc, char *argv[])
          }
       }
 
-      if (!cpd.do_check)
+      if (  !cpd.do_check
+         && !cpd.if_changed)
       {
          if (auto error = redir_stdout(output_file))
          {
@@ -1046,7 +1047,30 @@ int main(int argc, char *argv[])
 
       // Issue #3427
       init_keywords_for_language();
-      uncrustify_file(fm, stdout, parsed_file, dump_file_name, is_quiet);
+
+      if (cpd.if_changed)
+      {
+         // format into 'bout' first; stdout is written (and redirected) only on a change
+         uncrustify_file(fm, nullptr, parsed_file, dump_file_name, is_quiet, true);
+
+         if (!bout_content_matches(fm, false, is_quiet))
+         {
+            if (auto error = redir_stdout(output_file))
+            {
+               return(error);
+            }
+
+            for (UINT8 i : *cpd.bout)
+            {
+               fputc(i, stdout);
+            }
+         }
+         uncrustify_end();
+      }
+      else
+      {
+         uncrustify_file(fm, stdout, parsed_file, dump_file_name, is_quiet);
+      }
    }
    else if (source_file != nullptr)
    {
